@@ -12,7 +12,7 @@ import re
 from vlib import core, pipeline
 from vlib.core import HarnessError, log
 
-TRACE = {"module": "T_IPAM", "cfg": "T_IPAM.cfg", "timeout": 900}
+TRACE = {"module": "T_IPAM", "cfg": "T_IPAM.cfg", "timeout": 1500, "heap": "4g"}
 ALLOW_ZERO = ("Tick", "Capture", "Crash")   # budgets of 0 in some design configs
 
 
@@ -47,17 +47,19 @@ def leg(ctx, base, name, design=None, gen=None, n_random=(0, 0), mode=None, nont
 
 # ---- the soft channel (C19 HandleAgreement) --------------------------------------------------------------------
 
-SOFT_RE = re.compile(r'<<\s*"SOFT",\s*"handle-agreement",\s*(\d+),\s*(\{.*?\})\s*>>\n', re.S)
+SOFT_RE = re.compile(r'<<\s*"SOFT",\s*"([a-z-]+)",\s*(\d+),\s*(\{.*?\})\s*>>\n', re.S)
 TUP_RE = re.compile(r'<<\s*"([^"]*)",\s*"([^"]*)",\s*(\d+),\s*(\d+)\s*>>')
 
 
-def soft_lines(tlc_out):
-    """-> {trace id: first reported mismatch list [(handle, block, count, owned)]}"""
+def soft_lines(tlc_out, kind="handle-agreement"):
+    """-> {trace id: first reported tuple list [(name, key, n, m)]} for one kind of soft finding"""
     out = {}
     for m in SOFT_RE.finditer(tlc_out):
-        t = int(m.group(1))
+        if m.group(1) != kind:
+            continue
+        t = int(m.group(2))
         if t not in out:
-            out[t] = [(a, b, int(c), int(d)) for a, b, c, d in TUP_RE.findall(m.group(2))]
+            out[t] = [(a, b, int(c), int(d)) for a, b, c, d in TUP_RE.findall(m.group(3))]
     return out
 
 
@@ -109,12 +111,17 @@ def classify_overcount(events, mism):
     return "handle-mismatch:unexplained"
 
 
-def handle_soft(ctx, P):
-    """Report quiescent handle-agreement failures found in the last validation run of this leg."""
+def classify_cap(events, tuples):
+    return "block-cap-exceeded:blocks-in-pools-the-request-may-not-use-are-not-counted"
+
+
+def handle_soft(ctx, P, kind="handle-agreement", classify=None, what="crash-free quiescent state: handle count != addresses owned in block"):
+    """Report the soft findings of one kind found in the last validation run of this leg."""
+    classify = classify or classify_overcount
     outp = os.path.join(ctx.work, "tlc-%s-%s.out" % (TRACE["module"], TRACE["cfg"]))
     if not os.path.exists(outp):
         return 0
-    soft = soft_lines(open(outp).read())
+    soft = soft_lines(open(outp).read(), kind)
     if not soft:
         return 0
     trace_path = os.path.join(ctx.work, "trace.ndjson")
@@ -122,23 +129,27 @@ def handle_soft(ctx, P):
     by_sig = {}
     for t in sorted(soft):
         evs = [json.loads(x) for x in traces[t]]
-        by_sig.setdefault(classify_overcount(evs, soft[t]), []).append(t)
-    # re-execute once and require (up to 3 per signature of) the flagged traces to be flagged again
+        by_sig.setdefault(classify(evs, soft[t]), []).append(t)
+    # re-execute once and require (up to 3 per signature of) the flagged traces to be flagged again; signatures
+    # that are listed known findings are not re-validated (they cannot fail the check; saves a TLC run)
     beh = os.path.join(ctx.work, "behaviours.json") if P.get("gen") else None
     if ctx.replay:
         beh = os.path.join(ctx.replay, "behaviours.json")
-    nr = P["n_random"][0] if ctx.quick else P["n_random"][1]
-    rer = os.path.join(ctx.work, "trace-rerun-soft.ndjson")
-    pipeline.run_driver(ctx, P["driver"], beh, rer, nr)
-    again = dict(pipeline.split_traces(rer))
-    pick = sorted(t for ts in by_sig.values() for t in ts[:3])
-    sub = os.path.join(ctx.work, "trace-soft.ndjson")
-    pipeline.write_traces(sub, [(t, again[t]) for t in pick if t in again])
-    tr = core.validate_trace("ipam", TRACE["module"], TRACE["cfg"], sub, timeout=900)
-    soft2 = soft_lines(tr.out)
+    fresh_sigs = {sig: ts for sig, ts in by_sig.items() if not core.known_match(ctx.id, sig)}
+    soft2 = None
+    if fresh_sigs:
+        nr = P["n_random"][0] if ctx.quick else P["n_random"][1]
+        rer = os.path.join(ctx.work, "trace-rerun-soft-%s.ndjson" % kind)
+        pipeline.run_driver(ctx, P["driver"], beh, rer, nr)
+        again = dict(pipeline.split_traces(rer))
+        pick = sorted(t for ts in fresh_sigs.values() for t in ts[:3])
+        sub = os.path.join(ctx.work, "trace-soft.ndjson")
+        pipeline.write_traces(sub, [(t, again[t]) for t in pick if t in again])
+        tr = core.validate_trace("ipam", TRACE["module"], TRACE["cfg"], sub, timeout=900, heap="4g")
+        soft2 = soft_lines(tr.out, kind)
     for sig, ts in sorted(by_sig.items()):
         t = ts[0]
-        for x in ts[:3]:
+        for x in (ts[:3] if sig in fresh_sigs else []):
             if x not in soft2:
                 raise HarnessError("soft finding of trace %s did not reproduce on re-execution" % x)
         one = os.path.join(ctx.work, "soft-%s.ndjson" % t)
@@ -146,10 +157,9 @@ def handle_soft(ctx, P):
         rdir = core.save_replay(ctx, "soft-t%s" % t, files={"trace.ndjson": one, "behaviours.json": beh or ""},
                                 meta={"property": ctx.id, "trace": t, "signature": sig, "mismatch": soft[t],
                                       "seed": ctx.seed, "tier": ctx.tier, "traces_with_this_signature": len(ts),
-                                      "what": "crash-free quiescent state: handle count != addresses owned in block"})
-        core.report(ctx, sig, "handle-agreement fails at a crash-free quiescent point of trace %s (and %d more): %s"
-                    % (t, len(ts) - 1, soft[t][:3]), rdir)
-    ctx.notes.setdefault("soft_findings", []).append({"traces_flagged": len(soft),
+                                      "what": what})
+        core.report(ctx, sig, "%s: trace %s (and %d more): %s" % (kind, t, len(ts) - 1, soft[t][:3]), rdir)
+    ctx.notes.setdefault("soft_findings", []).append({"kind": kind, "traces_flagged": len(soft),
                                                       "by_signature": {k: len(v) for k, v in by_sig.items()}})
     return len(soft)
 
